@@ -4,6 +4,7 @@
                              B = 16 hex digits of an IEEE double; L = decimal long):
      get_rdpe F | get_rdpe_fixed F | get_2dl F | get_2dl_fixed F | size_2 F | get_d F | get_d_2exp F
      set_rdpe prec B L | set_2dl prec B L | set_2dl_fixed prec B L | set_d prec B | rdpe_set_d B | rdpe_set_2dl B L
+     get_cdpe F F | set_cdpe prec B L B L | get_cplx F F | set_cplx prec B B
      mul_2exp F L | div_2exp F L | roundtrip prec B
    stdout: "OK ..." or "UB <kind>" ; F printed as "size exp hexlimbs" ; rdpe as "B L" ; source writes as "W v1 v2" *)
 module BZ = Z
@@ -39,6 +40,12 @@ let eval toks =
   | ["set_rdpe"; p; b; l] -> out sf (mpf_set_rdpe (dec p) (db b, dec l))
   | ["set_2dl"; p; b; l] -> out sf (mpf_set_2dl (dec p) (db b) (dec l))
   | ["set_2dl_fixed"; p; b; l] | ["set_rdpe_fixed"; p; b; l] -> out sf (mpf_set_2dl_fixed (dec p) (db b) (dec l))
+  | ["get_cdpe"; p1; s1; e1; d1; p2; s2; e2; d2] ->
+      out (fun (((r1, r2), (f1, f2)), w) -> sr r1 ^ " " ^ sr r2 ^ " | " ^ sf f1 ^ " | " ^ sf f2 ^ " | " ^ sw w)
+        (mpc_get_cdpe (mpf p1 s1 e1 d1, mpf p2 s2 e2 d2))
+  | ["set_cdpe"; p; b1; l1; b2; l2] -> out (fun (f1, f2) -> sf f1 ^ " | " ^ sf f2) (mpc_set_cdpe (dec p) ((db b1, dec l1), (db b2, dec l2)))
+  | ["get_cplx"; p1; s1; e1; d1; p2; s2; e2; d2] -> out (fun (x, y) -> sd x ^ " " ^ sd y) (mpc_get_cplx (mpf p1 s1 e1 d1, mpf p2 s2 e2 d2))
+  | ["set_cplx"; p; b1; b2] -> out (fun (f1, f2) -> sf f1 ^ " | " ^ sf f2) (mpc_set_cplx (dec p) (db b1, db b2))
   | ["set_d"; p; b] -> out sf (mpf_set_d (dec p) (db b))
   | ["rdpe_set_d"; b] -> "OK " ^ sr (rdpe_set_d (db b))
   | ["rdpe_set_2dl"; b; l] -> "OK " ^ sr (rdpe_set_2dl (db b) (dec l))
